@@ -23,10 +23,21 @@ pub fn date_at(dn: i64) -> Date {
 pub fn dt_at(dn: i64, sod: i64, ns: u32, off: i32) -> DateTime {
     let base = DateTime::from_timestamp(ts_of_dn(dn) + sod);
     let base = if ns != 0 { base.add_nanos(ns) } else { base };
-    if off != 0 {
-        base.set_offset(Offset::Fixed(off))
-    } else {
-        base
+    if off == 0 {
+        return base;
+    }
+    // set_offset refuses a value whose local reading leaves the range (first / last day).  Such values are
+    // nevertheless obtainable through the API - by arithmetic on a value that carries the offset - so they are
+    // built the same way: the offset is attached one day further inside the range, then the day is added back.
+    match crate::util::guarded(|| base.set_offset(Offset::Fixed(off))) {
+        crate::util::Outcome::Ok(d) => d,
+        crate::util::Outcome::Panic(_) => {
+            if off > 0 {
+                base.sub_days(1).set_offset(Offset::Fixed(off)).add_days(1)
+            } else {
+                base.add_days(1).set_offset(Offset::Fixed(off)).sub_days(1)
+            }
+        }
     }
 }
 
@@ -52,8 +63,11 @@ pub fn proj_date(d: &Date) -> Value {
 
 pub fn proj_dt(d: &DateTime) -> Value {
     let ts = d.timestamp();
+    // the sub-second part is read at offset 0: nano() of the value itself goes through the local reading, which
+    // is not representable for a value on the first / last day whose offset points out of the range
+    let ns = d.set_offset(Offset::Fixed(0)).nano();
     json!({"k": "ok", "dn": ts.div_euclid(86_400) + EPOCH_DN, "sod": ts.rem_euclid(86_400),
-           "ns": d.nano(), "off": d.get_offset().resolve()})
+           "ns": ns, "off": d.get_offset().resolve()})
 }
 
 /// Every reading of `d` the API offers beyond timestamp/nano/offset, as one JSON value; each reading is
